@@ -221,6 +221,24 @@ let handle (req : json) : unit =
     | "hist", [ops] -> p_list p_obs (snd (run init_world (j_list j_op ops)))
     | "alphabet_of", [t] -> p_list p_str (compute_alphabet (j_table t))
     | "valid_key", [k] -> p_bool (valid_key (j_str k))
+    | "rt", [t; a; b] ->
+        (match read_smiles (j_str a), read_smiles (j_str b) with
+         | Some ma, Some mb ->
+             add "{\"read_in\":true,\"read_out\":true,\"same_molecule\":"; p_bool (same_molecule ma mb);
+             add ",\"same_stereo\":"; p_bool (same_stereo ma mb);
+             add ",\"kekule_ok\":"; p_bool (kekule_ok ma mb);
+             add ",\"out_kekule_form\":"; p_bool (kekule_form mb);
+             add ",\"violates_out\":"; p_bool (violates (j_table t) mb); add "}"
+         | ra, rb -> add "{\"read_in\":"; p_bool (ra <> None); add ",\"read_out\":"; p_bool (rb <> None); add "}")
+    | "kek", [a] ->
+        (match read_smiles (j_str a) with
+         | Some m -> add "{\"readable\":true,\"all_standard\":"; p_bool (all_standard m);
+                     add ",\"kekule_form\":"; p_bool (kekule_form m);
+                     add ",\"has_kekule\":"; p_bool (has_kekule_structure m); add "}"
+         | None -> add "{\"readable\":false}")
+    | "haspm", [g] -> p_bool (graph_has_pm (j_list (j_list j_nat) g))
+    | "ispm", [g; m] -> p_bool (is_perfect_matching (j_list (j_list j_nat) g) (j_list (j_opt j_nat) m))
+    | "symok", [t; syms] -> p_list p_bool (List.map (symbol_in_grammar (j_table t)) (j_list j_str syms))
     | "idx_to", [n] -> p_res (p_list p_str) (get_selfies_from_index (j_z n))
     | "modernize", [s] -> p_res p_str (modernize_symbol (j_str s))
     | "atom_sym", [t; s] ->
